@@ -1302,6 +1302,24 @@ def check_chi2(ctx):
                 arg = call.args[0] if call.args else receiver(call)
                 while isinstance(arg, ast.Subscript):
                     arg = arg.value
+                # the terms computed into a local first (possibly narrowed
+                # afterwards by `terms = terms[mask]`)
+                for _ in range(3):
+                    if not isinstance(arg, ast.Name):
+                        break
+                    defs_ = [n.value for n in walk_local(chi.node)
+                             if isinstance(n, ast.Assign) and len(
+                                 n.targets) == 1 and isinstance(
+                                     n.targets[0], ast.Name) and
+                             n.targets[0].id == arg.id and not (
+                                 isinstance(n.value, ast.Subscript) and
+                                 isinstance(n.value.value, ast.Name) and
+                                 n.value.value.id == arg.id)]
+                    if len(defs_) != 1:
+                        break
+                    arg = defs_[0]
+                    while isinstance(arg, ast.Subscript):
+                        arg = arg.value
                 inner, erased = V.strip_sign_erasure(arg)
                 ratio = isinstance(inner, ast.BinOp) and isinstance(
                     inner.op, ast.Div)
@@ -1358,6 +1376,15 @@ def check_chi2(ctx):
             mparam = [p for p in chi.params if p not in ('self',)][-1]
             sel = any(isinstance(n, ast.Subscript) and txt(n.slice) == mparam
                       for r in _returns(chi) for n in ast.walk(r.value))
+            # or on the way: `terms = terms[mask]` before the sum of `terms`
+            returned = {n.id for r in _returns(chi)
+                        for n in ast.walk(r.value) if isinstance(n, ast.Name)}
+            sel = sel or any(
+                isinstance(n, ast.Assign) and len(n.targets) == 1 and
+                isinstance(n.targets[0], ast.Name) and
+                n.targets[0].id in returned and isinstance(
+                    n.value, ast.Subscript) and txt(n.value.slice) == mparam
+                for n in walk_local(chi.node))
             ctx.decide('SAME-SOURCE', chi, f'summands are selected by '
                        f'`{mparam}`', sel, at=chi.where())
     # MASK-TABLE
@@ -1380,6 +1407,35 @@ def check_chi2(ctx):
                 guard = par.test
             cur = par
         option_on = guard is not None and 'ignore_empty' in txt(guard)
+        if guard is None:
+            # guard clause form: `if not self.ignore_empty: return <all>`
+            # followed by the mask; `if self.ignore_empty: return <mask>`
+            # followed by <all>
+            for stmt in nzb.node.body:
+                if stmt is ret or (hasattr(stmt, 'lineno') and
+                                   stmt.lineno >= ret.lineno):
+                    break
+                if isinstance(stmt, ast.If) and 'ignore_empty' in txt(
+                        stmt.test) and any(isinstance(s_, ast.Return)
+                                           for s_ in stmt.body):
+                    negated = isinstance(stmt.test, ast.UnaryOp) and \
+                        isinstance(stmt.test.op, ast.Not)
+                    option_on = negated
+        # masks computed into locals first
+        mdefs = {}
+        for node in walk_local(nzb.node):
+            if isinstance(node, ast.Assign) and len(node.targets) == 1 and \
+                    isinstance(node.targets[0], ast.Name):
+                mdefs.setdefault(node.targets[0].id, []).append(node.value)
+        import copy as _copy
+
+        class _Sub(ast.NodeTransformer):
+            def visit_Name(self, node):
+                if isinstance(node.ctx, ast.Load) and len(
+                        mdefs.get(node.id, [])) == 1:
+                    return self.visit(_copy.deepcopy(mdefs[node.id][0]))
+                return node
+        elt = _Sub().visit(_copy.deepcopy(elt))
         n_mask += 1
         if option_on:
             tol = _mask_tolerance(ctx.program, nzb, elt)
